@@ -910,6 +910,148 @@ ALPHA_DOC = ('I gQtLogger.installMessageHandler() (logger 0, the singleton), R L
              'and who receives a message emitted then (d Qt default handler, 1-3 foreign, p q r s = pipeline of logger 0..3, - nobody)')
 
 
+# ------------------------------------------------------------------------------------ several PrettyFormatter objects
+PRETTY_LAYOUTS = {'L': 'one Logger per object (formatPretty + capturing sink, Logger::processMessage)',
+                  'P': 'one installed Logger, one scoped sub-pipeline per object (pipeline().formatPretty()), Qt macros',
+                  'F': 'bare PrettyFormatter objects, format() called directly'}
+
+
+def gen_pretty_case(rng, i):
+    layout = 'LPF'[i % 3] if i < 9 else rng.choice('LLPPF')
+    nobj = 2 if i < 6 else rng.choice([1, 2, 2, 2, 3, 3, 4])
+    cfgs = [(rng.random() < 0.4, rng.choice([0, 0, 15, 15, 5, 3])) for _ in range(nobj)]
+    nthreads = rng.choice([2, 3, 4, 4]) if i >= 3 else 4
+    t = 1700000000 + rng.randrange(0, 10 ** 7)
+    ms = []
+    for _ in range(rng.randint(3, 14)):
+        t += rng.choice([0, 0, 1, 59, 3600])
+        mask = (1 << nobj) - 1 if layout == 'P' or rng.random() < 0.35 else rng.randrange(1, 1 << nobj)
+        ms.append({'mask': mask, 't': rng.choice(TYPES), 'w': rng.randrange(nthreads), 'cat': rng.choice(CATS + ['default', 'averyveryverylongcategoryname']),
+                   'text': rng.choice(TEXTS), 'time': t})
+    return {'id': i, 'layout': layout, 'cfgs': cfgs, 'msgs': ms}
+
+
+def pretty_line(c):
+    ops = [(k, m) for m in c['msgs'] for k in range(len(c['cfgs'])) if m['mask'] >> k & 1]
+    t = ['O%d' % len(c['cfgs'])] + ['%d %d' % (1 if col else 0, w) for col, w in c['cfgs']] + ['D%d' % len(ops)]
+    for k, m in ops:
+        t += [str(k), m['t'], hx16(m['cat']), hx16(m['text']), str(m['w']), hx16(timestr(m['time'])), str(m['time'] // 86400)]
+    return ' '.join(t)
+
+
+def run_pretty(impl, c, work):
+    """-> (rc, 'k:hex16,...' of the records the objects produced, in order)"""
+    path = os.path.join(work, 'pretty_%d_%d.txt' % (c['id'], id(c) & 0xffff))
+    lines = ['layout ' + c['layout']] + ['obj %d %d' % (1 if col else 0, w) for col, w in c['cfgs']]
+    for m in c['msgs']:
+        lines.append('time %d' % m['time'])
+        lines.append('msg %d %s %d %s %s' % (m['mask'], m['t'], m['w'], '-' if m['cat'] == 'default' else hx8(m['cat']), hx8(m['text'])))
+    with open(path, 'w') as f:
+        f.write('\n'.join(lines) + '\n')
+    env = dict(os.environ, TZ='UTC')
+    try:
+        p = subprocess.run([impl, 'pretty', path], stdout=subprocess.PIPE, stderr=subprocess.PIPE, timeout=300, env=env)
+    finally:
+        try:
+            os.unlink(path)
+        except OSError:
+            pass
+    recs = []
+    for ln in p.stdout.decode('ascii', 'replace').splitlines():
+        f = ln.split()
+        if len(f) == 2 and f[0].isdigit():
+            recs.append('%s:%s' % (f[0], of_bytes(b'' if f[1] == '-' else bytes.fromhex(f[1]))))
+    return p.returncode, ','.join(recs) or '-'
+
+
+def show_recs(s):
+    return [] if s in ('-', '') else ['%s: %s' % (r.split(':')[0], unhx16(r.split(':')[1])) for r in s.split(',')]
+
+
+def describe_pretty(c):
+    return {'layout': c['layout'], 'layout_means': PRETTY_LAYOUTS[c['layout']],
+            'objects': [{'colorize': col, 'maxCategoryWidth': w} for col, w in c['cfgs']],
+            'messages': [{'to_objects': [k for k in range(len(c['cfgs'])) if m['mask'] >> k & 1], 'type': m['t'], 'thread': m['w'],
+                          'category': m['cat'], 'text': m['text'], 'time': m['time']} for m in c['msgs']]}
+
+
+def pretty_of(d):
+    return {'id': 0, 'layout': d['layout'], 'cfgs': [(o['colorize'], o['maxCategoryWidth']) for o in d['objects']],
+            'msgs': [{'mask': sum(1 << k for k in m['to_objects']), 't': m['type'], 'w': m['thread'], 'cat': m['category'], 'text': m['text'],
+                      'time': m['time']} for m in d['messages']]}
+
+
+def judge_pretty(model, impl, c, work):
+    """-> (oracle holds on the implementation's records, they equal the model's, implementation records, model records)"""
+    rc, got = run_pretty(impl, c, work)
+    line = pretty_line(c)
+    _, mo, _ = vlib.run_lines(model, [line], ['pretty'])
+    _, orc, _ = vlib.run_lines(model, ['%s | %s' % (line, got)], ['prettyoracle'])
+    return (rc == 0 and orc and orc[0] == '1'), (mo and mo[0] == got), got, (mo[0] if mo else '?')
+
+
+def pretty_leg(chk, model, impl, work, n):
+    """messages of 1 + 3 threads through 1-4 PrettyFormatter objects interleaved in one process; every object's records
+    against its own model instance (the records of an object are a function of the sequence IT has seen)"""
+    rng = chk.rng
+    cs = [gen_pretty_case(rng, i) for i in range(n)]
+    with ThreadPoolExecutor(max_workers=min(8, vlib.NCPU)) as ex:
+        res = list(ex.map(lambda c: judge_pretty(model, impl, c, work), cs))
+    bad = [(c, r) for c, r in zip(cs, res) if not r[0]]
+    differ = [(c, r) for c, r in zip(cs, res) if r[0] and not r[1]]
+    if bad:
+        c, r = min(bad, key=lambda x: (len(x[0]['cfgs']), len(x[0]['msgs'])))
+
+        def still_bad(ms, c=c):
+            return bool(ms) and not judge_pretty(model, impl, dict(c, msgs=ms), work)[0]
+        c = dict(c, msgs=vlib.shrink_list(c['msgs'], still_bad, max_steps=120))
+        # a delivery to several objects -> try single objects
+        for i in range(len(c['msgs'])):
+            for k in range(len(c['cfgs'])):
+                m = c['msgs'][i]
+                if m['mask'] >> k & 1 and m['mask'] != 1 << k and c['layout'] != 'P':
+                    cand = c['msgs'][:i] + [dict(m, mask=m['mask'] & ~(1 << k))] + c['msgs'][i + 1:]
+                    if still_bad(cand):
+                        c = dict(c, msgs=cand)
+        ok, same, got, mo = judge_pretty(model, impl, c, work)
+        per_obj = {}
+        for k, (col, w) in enumerate(c['cfgs']):
+            per_obj['object %d' % k] = {'observed': [x.split(': ', 1)[1] for x in show_recs(got) if x.startswith('%d: ' % k)],
+                                        'specified (a fresh formatter over the messages delivered to this object)':
+                                            [x.split(': ', 1)[1] for x in show_recs(mo) if x.startswith('%d: ' % k)]}
+        chk.fail('several PrettyFormatter objects in one process: the records of an object are not those of a formatter that has seen exactly '
+                 'the messages delivered to it (thread numbering / category column leak between objects or threads)',
+                 {'kind': 'pretty_objects', 'front': 'pretty_objects', 'pretty_case': describe_pretty(c), 'per_object': per_obj,
+                  'falsified_cases': len(bad)}, kind='pretty_objects')
+    elif differ:
+        c, r = differ[0]
+        chk.broke('several PrettyFormatter objects: records differ from the model although every object is consistent (%d cases)' % len(differ),
+                  {'kind': 'correspondence', 'front': 'pretty_objects', 'pretty_case': describe_pretty(c), 'observed': show_recs(r[2]), 'model': show_recs(r[3])})
+    labelled = sum(1 for c, r in zip(cs, res) if re.search(r'00540031|0054003[2-9]', r[2]))
+    return {'pretty_objects_cases': n, 'pretty_objects_falsified': len(bad), 'pretty_objects_disagreements': len(differ),
+            'pretty_objects_layouts': {k: sum(1 for c in cs if c['layout'] == k) for k in 'LPF'},
+            'pretty_objects_per_case': {str(k): sum(1 for c in cs if len(c['cfgs']) == k) for k in (1, 2, 3, 4)},
+            'pretty_objects_cases_with_thread_labels': labelled,
+            'pretty_objects_records': sum(0 if r[2] == '-' else r[2].count(',') + 1 for r in res),
+            'pretty_objects_thread_first_seen_by_another_object': sum(1 for c in cs if _cross_first(c)),
+            'pretty_objects_sample': {'case': describe_pretty(cs[0]), 'observed': show_recs(res[0][2])}}
+
+
+def _cross_first(c):
+    """does some thread reach an object after it went through ANOTHER object first (and that object has seen a different thread before)?"""
+    first = {}
+    seen = {k: [] for k in range(len(c['cfgs']))}
+    for m in c['msgs']:
+        for k in range(len(c['cfgs'])):
+            if m['mask'] >> k & 1:
+                if m['w'] not in seen[k]:
+                    if m['w'] in first and first[m['w']] != k:
+                        return True
+                    seen[k].append(m['w'])
+                first.setdefault(m['w'], k)
+    return False
+
+
 def well_formed(h):
     alive = set()
     for ch in h:
@@ -1048,7 +1190,7 @@ def run():
                        'messages contain no NUL character; qFatal is not emitted',
                        'install/restore histories: foreign parties install their own handlers or nullptr, never Logger::messageHandler itself; a Logger is destroyed by its owner, not while one of its calls runs',
                        'file layout: the log directory holds no rotated files at start; old lines are dated on or before the first message; size / retention limits out of reach',
-                       'one configuration per process (PrettyFormatter::instance() is process-wide state)',
+                       'one configuration per process (PrettyFormatter::instance() is process-wide state); the several-PrettyFormatter-objects leg runs its objects in one process on purpose',
                        'syslog output is not observed (offline sandbox)',
                        'async configurations are drained with a live QCoreApplication (exec()+quit or resetOwnThread); the no-event-loop exit path is C04']
     chk.proof(vlib.proof_leg('Properties_C19', ['config']))
@@ -1159,6 +1301,7 @@ def run():
             else:
                 chk.samples.append({'oneline_case': describe(cs[0]), 'observed': small(obs[0])})
         cov.update(history_leg(chk, model, impl, work, 400 if thorough else 90))
+        cov.update(pretty_leg(chk, model, impl, work, 600 if thorough else 120))
         if thorough:
             # the same children under AddressSanitizer + UndefinedBehaviorSanitizer (+ leak check at exit)
             san = vlib.build_harness('config', 'san')
@@ -1180,14 +1323,16 @@ def run():
     cov['retention_trimmed_cases'] = stats['trimmed']
     cov['ini_lexing_probe'] = lexing_probe(model, impl)
     chk.samples += cov.pop('install_samples')
-    total = cov['install_histories'] + cov['install_core_histories_in_own_process'] + cov['ini_cases'] + cov['oneline_cases'] + cov['history_cases']
+    chk.samples.append({'pretty_objects': cov.pop('pretty_objects_sample')})
+    total = cov['install_histories'] + cov['install_core_histories_in_own_process'] + cov['ini_cases'] + cov['oneline_cases'] + cov['history_cases'] + cov['pretty_objects_cases']
     cov.update({'evaluations': total,
                 'distinct_nontrivial': cov['install_distinct_nontrivial'] + cov['ini_distinct_nontrivial'] + cov['oneline_distinct_nontrivial'],
                 'rule': 'install: random histories (length <= 12) over I R F1 F2 F3 D plus every history up to the stated length, plus histories in which up to three '
                         'non-singleton Logger objects are created / installed / destroyed (exhaustive over I R F1 + one such logger up to the stated length, random beyond); '
                         'non-trivial = contains an install, a restore and a foreign call, or a restore after the installing logger was destroyed.  ini / one-line: one child process per generated configuration (every single key, no key, '
                         'all keys, then random subsets at four densities; boundary values; quoted and QSettings-written files; pipes and ptys); '
-                        'non-trivial = at least one record reached an observable output'})
+                        'non-trivial = at least one record reached an observable output.  several PrettyFormatter objects: 1-4 objects x 1+3 emitting threads '
+                        'in one process (own Loggers / sub-pipelines of one installed Logger / bare objects), random delivery masks'})
     chk.cov.update(cov)
     return chk.finish()
 
@@ -1206,6 +1351,19 @@ def replay(path):
         print('model          ', vlib.run_lines(model, [h], ['install'])[1])
         _, o, _ = vlib.run_lines(impl, [h], ['fork'])
         print('oracle         ', vlib.run_lines(model, ['%s %s' % (h, o[0] if o else '')], ['instoracle'])[1])
+        return 0
+    if r.get('pretty_case'):
+        impl = vlib.build_harness('config')
+        c = pretty_of(r['pretty_case'])
+        work = tempfile.mkdtemp(prefix='c19r_')
+        try:
+            ok, same, got, mo = judge_pretty(model, impl, c, work)
+        finally:
+            shutil.rmtree(work, ignore_errors=True)
+        print('case           ', json.dumps(describe_pretty(c), ensure_ascii=False))
+        print('implementation ', json.dumps(show_recs(got), ensure_ascii=False))
+        print('model          ', json.dumps(show_recs(mo), ensure_ascii=False))
+        print('verdict        ', 'holds' if ok else 'property falsified: an object\'s records are not a function of the messages delivered to it', '' if same else '(differs from the model)')
         return 0
     if r.get('scenario'):
         impl = vlib.build_harness('config')
